@@ -217,6 +217,12 @@ def sender_body(P, R):
         p = snd.path_avoiding(None, pred, from_entry=True)
         once = len(sites) == 1 and sites[0].bid not in snd.reach([e.dst for e in snd.out[sites[0].bid]])
         R.ob('C09.FMT.2', p is None and once, sites[0], 'every call of the sender %s exactly once' % nm, key='once:%s' % nm)
+        if nm == 'writes the message':
+            from .. import bnd
+            for t in sites:
+                if t.ev.get('callee') == 'fwrite':
+                    idi, why = bnd.classify_call(P, snd, t)
+                    R.ob('C09.FMT.2', idi is not None, t, 'the message is written with a length that stays inside the message buffer (%s)' % (idi or why), key='write-length')
     R.floor('C09.FMT.2', 4)
 
 
